@@ -108,6 +108,18 @@ CHECKS = {
                             "W4 (last instance destroyed while another thread creates), W5 (concurrent creates kept alive; descriptors compared), W3/W2+/W1x3 with three threads",
                             "interleavings are explored at hooked points only; accesses between hooks are covered by the ThreadSanitizer monitor on the same schedules, not by further interleaving",
                             "sequentially consistent execution (one thread runs at a time); weak-memory effects only as far as TSan's happens-before model flags them"]},
+    "C15": {"runs": [{"name": "c15", "plan": "c15", "srcs": S, "san": "asan"},
+                     {"name": "states", "plan": "states", "srcs": H, "san": "asan", "opts": {"quick": {"slots": 3}, "thorough": {"slots": 4}}, "only_sites": r"history-dependent-output"},
+                     {"name": "threads", "plan": "asan", "srcs": T_SRCS, "san": "asan", "hooks": True, "nosan": ("vsched.c",),
+                      "opts": {"quick": {"bound": 1, "drivers": 2}, "thorough": {"bound": 2, "drivers": 5}}, "only_sites": r"result-differs-from-sequential"}],
+            "level": "model_checking", "deadline": {"quick": 150, "thorough": 1200},
+            "rule": ("(1) data plane: every shape x three lengths x all erasure sets within tolerance (exhaustive for n <= 8 | 10) x decode + reconstruct of every index, with the caller's data, "
+                     "fragments, pointer array and index lists on read-only pages that end at (or start after) a PROT_NONE page, in three placements (end-abutting, 16-aligned start, "
+                     "odd alignment): any write to an input or read outside it faults and is attributed to the case; encode repeated after all that activity must give identical bytes; "
+                     "(2) histories: in every abstract registry state (<= 3 | 4 live instances) every live instance's outputs are compared with those of a fresh process; "
+                     "(3) threads: in every schedule of drivers W1/W2 up to the preemption bound each thread's outputs are compared with the sequential execution; "
+                     "non-trivial = the case reached a backend operation / operated on a non-empty registry / switched threads"),
+            "assumptions": ASSUME_S + ["sanitizer reports under the thread scheduler are C18's findings and are not counted here; only output differences are"]},
     "C19": {"runs": [
         {"name": "c19rt", "plan": "c19rt", "srcs": S, "san": "asan", "opts": {"quick": {"ex_n": 10, "st_lens": 2}}},
         {"name": "c19rc", "plan": "c19rc", "srcs": S, "san": "asan", "opts": {"quick": {"ex_n": 8, "st_lens": 1, "ex_lens": 2, "max_n": 16}}},
